@@ -551,7 +551,7 @@ func checkC18() *checkDef {
 				{Pkg: "./config", Scenario: "config/persist-faults", Params: map[string]any{}},
 				{Pkg: "./config", Scenario: "config/doc-shapes", Params: map[string]any{}, Workers: 1},
 				// GET /api/config, PATCH /api/config and readers of a setting at the same time
-				{Pkg: "./config", Scenario: "config/concurrent", Params: map[string]any{}, K: 2, E: 0, Horizon: 20000, Workers: 4},
+				{Pkg: "./config", Scenario: "config/concurrent", Params: map[string]any{}, K: d - 1, E: 0, Horizon: 20000, Workers: 8},
 				// accepted web-server settings handed to the real main.startWebServer
 				{Pkg: "./.", Scenario: "main/startup", Params: map[string]any{}, Workers: 1},
 				// updates accepted while command-line values are in force: the file gets the saved values only
